@@ -65,6 +65,7 @@ class FnLower:
         self.caught_stack = []
         self.last_loc = None
         self.cond_stack = []
+        self.rename = {}
         self.hoisted = set()
         self.nkinds = {}
         self.ret_kind = 'void'
